@@ -4,6 +4,7 @@ import ShmVerif.Drv.C05
 import ShmVerif.Drv.C03
 import ShmVerif.Drv.C13
 import ShmVerif.Drv.C06
+import ShmVerif.Drv.C18
 /-! `shmdriver`: reads op lines on stdin, runs the executable models the theorems are about, prints one line
     per op line. First line: `model <name>`; `case <k>` resets the model state. -/
 
@@ -32,6 +33,7 @@ def main : IO Unit := do
   | "model c03" => loop h out ({} : Drv.C03.St) Drv.C03.step {}
   | "model c13" => loop h out ({} : Drv.C13.St) Drv.C13.step {}
   | "model c06" => loop h out ({} : Drv.C06.St) Drv.C06.step {}
+  | "model c18" => loop h out ({} : Drv.C18.St) Drv.C18.step {}
   | "model c01" => loop h out ({} : Drv.C01.St) Drv.C01.step {}
   | _ => out.putStrLn "unknown-model"
   out.flush
